@@ -154,6 +154,14 @@ pub fn observe<const L: usize>(book: &OrderBook<L>, trading: bool) -> String {
     s
 }
 
+/// An observation without its `hs=` token: what the getters show. The lock-step comparisons between two *real* books
+/// (a reloaded book and its original, an environment's book and its stand-alone shadow) use this: the properties they
+/// decide speak of what a client can see and of all later behaviour, not of the numbering of internal stamps. The
+/// snapshot-only state is compared with the model's (`K`) and judged by C10's own clause.
+pub fn visible(s: &str) -> &str {
+    s.rsplit_once(" hs=").map(|x| x.0).unwrap_or(s)
+}
+
 /// The part of the book's state that no getter shows but every snapshot carries: the next queue stamp, the
 /// trading flag and each order record's queue key. Read from the book's own `Serialize` output:
 /// `<queue_stamp>/<trading 0|1>/<side:price-key:stamp;...>` (`?` if the snapshot has another form).
